@@ -27,18 +27,18 @@ theorem C18_tune_only_granularity {α β} (read : α → List β) (step : Nat) (
   | nil => rfl
   | cons b t ih => simp [List.flatMap_append, ih]
 
-/-- pushed-down row filters: for negation-free predicates over null-compatible comparisons the reader
+/-- pushed-down row filters: whenever `extract_pq_filters` hands filters to the reader, the reader
     (Kleene evaluation on the combined DNF, row kept iff true) keeps exactly the rows pandas keeps,
-    including rows with missing values (instance of C03 for the reader) -/
-theorem C18_filter_pushdown (p : T Atom) (d : DNF Atom) (v : Cells) (h : extractPq p = some d)
-    (hnc : ∀ a ∈ p.atoms, a.NullCompatible = true) : keepDNF3 v d = eval2c v p :=
-  C03_reader_pushdown p d v h hnc
+    including rows with missing values (instance of C03 for the reader; no side condition since the
+    `fix:` for D9 — `!=` is no longer extracted) -/
+theorem C18_filter_pushdown (p : T Atom) (d : DNF Atom) (v : Cells) (h : extractPq p = some d) :
+    keepDNF3 v d = eval2c v p :=
+  C03_reader_pushdown p d v h
 
-/-- FULL STATEMENT without the `NullCompatible` hypothesis is false on the current tree (D9):
-    a pushed `!=` drops the rows whose value is null. -/
-theorem C18_ne_null_counterexample :
-    ∃ (p : T Atom) (d : DNF Atom) (v : Cells), extractPq p = some d ∧ keepDNF3 v d ≠ eval2c v p :=
-  C03_ne_null_counterexample
+/-- why `!=` must stay in memory: as a reader filter it would drop the rows whose value is null -/
+theorem C18_ne_pushdown_would_be_unsound :
+    ∃ (v : Cells), keepDNF3 v [[Atom.cmp 0 .ne 2]] ≠ eval2c v (.atom (.cmp 0 .ne 2)) :=
+  C03_ne_pushdown_would_be_unsound
 
 /-- overwrite guard: writing into directory `w` is refused exactly when `w` is a component-wise prefix
     of a path the same query reads (so "/data/a" does not block "/data/ab") -/
